@@ -19,6 +19,9 @@ pub struct SrcCase {
     /// drop the file's final line terminator (languages without a footer)
     #[serde(default)]
     pub no_eol: bool,
+    /// the file starts with a UTF-8 byte-order mark
+    #[serde(default)]
+    pub bom: bool,
 }
 
 pub const ECHO_PATTERN: &str = r"[\s\S]*";
@@ -58,6 +61,9 @@ pub fn prepare(c: &SrcCase) -> Prepared {
         } else if t.ends_with('\n') {
             t.pop();
         }
+    }
+    if c.bom {
+        built = built.with_bom();
     }
     Prepared { suffix, lang, file: langs::file_name("src", suffix), built }
 }
@@ -215,8 +221,8 @@ pub fn check_as(prop: &str, c: &SrcCase, probe: &Probe, nontrivial: &dyn Fn(&Pre
 }
 
 pub fn case_strategy() -> BoxedStrategy<SrcCase> {
-    (0..SUFFIXES.len(), builder::events_strategy(builder::simple_tag_strategy(), 28), proptest::bool::weighted(0.15), any::<bool>(), proptest::bool::weighted(0.15))
-        .prop_map(|(suffix, events, crlf, echo, no_eol)| SrcCase { suffix, events, crlf, echo, no_eol })
+    (0..SUFFIXES.len(), builder::events_strategy(builder::simple_tag_strategy(), 28), proptest::bool::weighted(0.15), any::<bool>(), (proptest::bool::weighted(0.15), proptest::bool::weighted(0.08)))
+        .prop_map(|(suffix, events, crlf, echo, (no_eol, bom))| SrcCase { suffix, events, crlf, echo, no_eol, bom })
         .boxed()
 }
 
@@ -235,6 +241,7 @@ pub fn golden_cases() -> Vec<SrcCase> {
                 crlf: false,
                 echo: true,
                 no_eol: false,
+                bom: false,
             });
         }
     }
